@@ -5,6 +5,10 @@
 (* is evaluated after every line.  One line per interface call, written by the fake under the   *)
 (* scenario's lock at the time of the call (so the file order is the order of the calls, also   *)
 (* for the concurrent relay goroutines).                                                        *)
+(* A scenario is the history of ONE service instance: Reset (the service is built, first duty), *)
+(* the lines of the first duty up to Ret, then for every further duty NextDuty and its lines up *)
+(* to Ret.  NextDuty is only possible once Propose has returned (pc = "done"); a Propose that   *)
+(* did not return is logged by the driver's watchdog as Hung, which no action explains.         *)
 EXTENDS Proposer, TraceLib
 
 VARIABLE l
@@ -12,10 +16,11 @@ tvars == <<vars, l>>
 
 TraceInit ==
     /\ l = 1
+    /\ k = 1 /\ past = {}
     /\ duty = [slot |-> 0, v |-> 0]
-    /\ cfg = [graffiti |-> FALSE, auctioneer |-> FALSE, unblindAll |-> FALSE]
+    /\ cfg = [graffiti |-> FALSE, nodeclient |-> FALSE, auctioneer |-> FALSE, unblindAll |-> FALSE]
     /\ pc = "done"
-    /\ acct = NoAcct /\ randao = NoRandao /\ graffiti = "none" /\ auction = NoAuction
+    /\ acct = NoAcct /\ randao = NoRandao /\ graffiti = "none" /\ nodeclient = "none" /\ auction = NoAuction
     /\ preq = NoPreq /\ prop = NoProp /\ sreq = NoSreq /\ sig = 0
     /\ calls = [r \in Relays |-> 0] /\ sent = {} /\ fulls = {}
     /\ cancelled = FALSE /\ submitted = NoSub /\ subout = "none"
@@ -33,18 +38,17 @@ DescOf(x) == [src |-> x.src, version |-> x.version, blinded |-> x.blinded, conta
 
 TraceReset ==
     /\ IsEvent("Reset")
+    /\ k' = 1 /\ past' = {}
     /\ duty' = [slot |-> T.slot, v |-> T.v]
-    /\ cfg' = [graffiti |-> T.cfg.graffiti, auctioneer |-> T.cfg.auctioneer, unblindAll |-> T.cfg.unblindAll]
-    /\ pc' = "start"
-    /\ acct' = NoAcct /\ randao' = NoRandao /\ graffiti' = "none" /\ auction' = NoAuction
-    /\ preq' = NoPreq /\ prop' = NoProp /\ sreq' = NoSreq /\ sig' = 0
-    /\ calls' = [r \in Relays |-> 0] /\ sent' = {} /\ fulls' = {}
-    /\ cancelled' = FALSE /\ submitted' = NoSub /\ subout' = "none"
+    /\ cfg' = [graffiti |-> T.cfg.graffiti, nodeclient |-> T.cfg.nodeclient, auctioneer |-> T.cfg.auctioneer,
+               unblindAll |-> T.cfg.unblindAll]
+    /\ ResetPipeline
 
 TraceAccounts == IsEvent("Accounts") /\ AccountsCall(T.epoch, T.idxs, T.out)
 TraceRandao   == IsEvent("Randao") /\ RandaoCall(T.account, T.slot, T.out, T.token)
 TracePropose  == IsEvent("ProposeCall") /\ ProposeCall
-TraceGraffiti == IsEvent("Graffiti") /\ GraffitiCall(T.out)
+TraceGraffiti == IsEvent("Graffiti") /\ T.out \in {"static", "template", "err"} /\ GraffitiCall(T.out)
+TraceNodeClient == IsEvent("NodeClient") /\ T.out \in {"ok", "err"} /\ NodeClientCall(T.out)
 TraceAuction  == IsEvent("Auction") /\ AuctionCall(T.out, SeqToSet(T.all), SeqToSet(T.providers))
 TraceProposal == IsEvent("Proposal") /\ ProposalCall(T.slot, T.zerograffiti, T.reveal, T.out, PropOf(T.p))
 TraceSign     == IsEvent("Sign") /\ SignCall(T.account, T.slot, T.v, RootOf(T.parent), RootOf(T.state),
@@ -53,10 +57,13 @@ TraceUnblind  == IsEvent("Unblind") /\ T.relay \in Relays /\ UnblindCall(T.relay
 TraceCancel   == IsEvent("Cancel") /\ Cancel
 TraceSubmit   == IsEvent("Submit") /\ SubmitCall(DescOf(T.desc), T.out)
 TraceRet      == IsEvent("Ret") /\ Ret
+\* the same service instance gets its next duty: only after Propose has returned for the current one
+TraceNextDuty == IsEvent("NextDuty") /\ NextDuty(T.slot, T.v)
 
 TraceNext ==
     \/ TraceReset \/ TraceAccounts \/ TraceRandao \/ TracePropose \/ TraceGraffiti \/ TraceAuction
     \/ TraceProposal \/ TraceSign \/ TraceUnblind \/ TraceCancel \/ TraceSubmit \/ TraceRet
+    \/ TraceNodeClient \/ TraceNextDuty
 
 TraceSpec == TraceInit /\ [][TraceNext]_tvars
 
